@@ -175,17 +175,27 @@ def r2_slots(ctx, sgn, qfn):
                     if isinstance(x, tuple) and x[0] == "str":
                         coding = x[1]
         changed = []
-        for (fn, h, key), init in lev.items():
-            if fn == sgn and key[0] == "F" and is_agg(init) and init[1] == "tuple":
-                # the slots are the components of a try_fold accumulator `(gzip, identity, *)`: each starts as None, one turn
-                # returns the new tuple
-                accv = ("loopvar", sgn, h, key, 0)
+        lfn = o.where[0]        # the function holding the element loop: should_gzip itself or a helper it was moved into
+        sigs = {k4[:3]: k4[3] for k4 in lev if len(k4) == 4}
+        for k4, init in lev.items():
+            if len(k4) != 3:
+                continue
+            fn, h, key = k4
+            if fn == lfn and h == header and key[0] == "F" and is_agg(init) and \
+                    (init[1] == "tuple" or (init[1] == "adt" and (ctx.facts.adts.get(init[2]) or {}).get("local"))):
+                # the slots are the components of a try_fold accumulator - a tuple `(gzip, identity, *)` or a private record -:
+                # each starts as None, one turn returns the new accumulator (rebuilt, or updated in place)
+                accv = ("loopvar", fn, h, key, 0) + ((sigs[k4],) if k4 in sigs else ())
                 for name, comp in init[4]:
                     if not (is_agg(comp) and comp[2] == "std::option::Option"):
                         continue
                     skey = ("F", 0, name)
                     entry[skey] = comp
-                    new = agg_get(o.value, name) if is_agg(o.value) else None
+                    nv = o.value
+                    while isinstance(nv, tuple) and nv and nv[0] == "upd" and nv[2] != ("f", name):
+                        nv = nv[1]
+                    new = agg_get(nv, name) if is_agg(nv) else (nv[3] if isinstance(nv, tuple) and nv and nv[0] == "upd" else
+                                                               (("field", accv, name) if nv == accv else None))
                     if new != ("field", accv, name):
                         changed.append((skey, new))
                 continue
@@ -325,7 +335,7 @@ def r3_decision(ctx, sgn, outs, slots, header):
             if t[0] == "loopvar" and t[3] in keyname:
                 v = env[keyname[t[3]]]
                 return Opt(v is not None, v)
-            if t[0] == "field" and isinstance(t[1], tuple) and t[1][0] == "loopvar" and t[1][3][0] == "F" and ("F", 0, t[2]) in keyname:
+            if t[0] == "field" and isinstance(t[1], tuple) and t[1][0] == "loopvar" and isinstance(t[1][3], tuple) and t[1][3][0] == "F" and ("F", 0, t[2]) in keyname:
                 v = env[keyname[("F", 0, t[2])]]
                 return Opt(v is not None, v)
             return NotImplemented
